@@ -532,7 +532,16 @@ def run(ctx):
         extra = "".join("Definition %s : list Q := [%s]%%Q.\n" % (name, "; ".join(coq_q(x) for x in dv))
                         for dv, name in dimnames.items())
         live = [t for t in terms if t is not None]
-        mout = C.run_model(ctx["rundir"], "c17", IMPORTS, "run_case", live, shard=10 if tier != "quick" else 25,
+        # one output string per shard is long (about 2-5 kB per instant): coqc needs a deep C stack to read it
+        # back from the VM and print it; the limit is inherited by the coqc child processes only
+        import resource
+        soft, hard = resource.getrlimit(resource.RLIMIT_STACK)
+        want = 1 << 30
+        if hard != resource.RLIM_INFINITY:
+            want = min(want, hard)
+        if soft != resource.RLIM_INFINITY and soft < want:
+            resource.setrlimit(resource.RLIMIT_STACK, (want, hard))
+        mout = C.run_model(ctx["rundir"], "c17", IMPORTS, "run_case", live, shard=60 if tier != "quick" else 100,
                            extra_defs=extra, case_type="string * list op")
         C.log("C17: model side %.1fs" % (_t.time() - t0))
         it = iter(mout)
@@ -541,6 +550,8 @@ def run(ctx):
     # ---- 3. compare
     hist_op, hist_out, hist_kind = {}, {}, {}
     nontrivial, evaluations, disagreements, tolerated = set(), n_plain, 0, 0
+    n_oracle = 0
+    t0 = _t.time()
     boundary = dict(month_end=0, leap_day=0, year_end=0, first_day=0, last_day=0)
     samples = []
     mi = 0
@@ -584,10 +595,16 @@ def run(ctx):
                               "%s escaped from execute() with %s" % (expr, g.get("escaped") or "hang"),
                               dict(case=dict(i=itext, ops=[op]), impl=g))
                 continue
-            exp_o = oracle(i_us, op, o["q"]) if isinstance(i_us, int) else i_us
             exp_m = mvals[oi] if mvals else None
             if exp_m == "E:Unmodelled":
                 exp_m = None
+            # the independent oracle arbitrates: always when the model is silent or differs from the implementation
+            # on the plain text, and on every fourth evaluation otherwise
+            if exp_m is None or exp_m != got or (ci + oi) % 4 == 0:
+                exp_o = oracle(i_us, op, o["q"]) if isinstance(i_us, int) else i_us
+                n_oracle += 1
+            else:
+                exp_o = None
             qi = q_info(o["q"].get(op.get("q"))) if op.get("q") else None
             if qi:
                 hist_kind[qi[0]] = hist_kind.get(qi[0], 0) + 1
@@ -721,7 +738,9 @@ def run(ctx):
                 rep.violation(dict(kind="relation", rel="floor-midnight"), "floor(%s) gives %s, not midnight of the same date" % (lit(itext), g.get("raw")),
                               dict(case=dict(i=itext, ops=[dict(k="floor")])))
 
+    C.log("C17: comparison %.1fs" % (_t.time() - t0))
     rep.coverage.update(dict(
+        oracle_evaluations=n_oracle,
         evaluations=evaluations, distinct_nontrivial=len(nontrivial),
         rule="one case per instant (every day of years %s x %s; plus %d literal edge cases and seeded random dates over years 1..9999); "
              "per instant: floor, ceil, six getters, +/- spans in s/ms/min/h/d/week with integer, fraction (incl. exact half-microsecond ties) "
